@@ -160,4 +160,20 @@ CHECKS = {
         quick=[R("^(TestFixedMatrix|TestCanary.*)$", 1, 1, 900), R("^TestFaults$", 9, 10, 900, shrinktime="90s")],
         thorough=[R("^(TestFixedMatrix|TestCanary.*)$", 1, 1, 900), R("^TestFaults$", 150, 15, 3400, shrinktime="180s")],
     ),
+    "C04": dict(
+        pkg="./props/c04", bins=["./cmd/simcore"], level="exploration",
+        rule=("whole core against the simulated world with 3 hosts mapped to 3 detectors; rapid-generated histories of 2-12 operations over "
+              "several environments: create (workflow on a subset of hosts, sometimes needing a detector in use), ControlEnvironment, "
+              "DestroyEnvironment (force / keepTasks), CleanupTasks (all or listed ids including ids owned by other environments), optionally "
+              "overlapping the previous transition (parked on gated executor replies), with task reuse on or off. Oracle after every operation: "
+              "task lists of live environments pairwise disjoint and consistent with GetTasks.locked / GetTask.envId, includedDetectors pairwise "
+              "disjoint and equal to GetActiveDetectors, every KILL / command MESSAGE at the master joined with ownership at the start of the "
+              "operation never reaches a task of another live environment, refused creates leave the holder untouched. Non-trivial: >=2 live "
+              "environments, a detector conflict, or a cleanup while an environment is live."),
+        assumptions=["ownership at the start of an operation is read through the API at quiescence and cross-checked for consistency",
+                     "interleavings inside the core beyond the forced overlap are not owned"],
+        quick=[R("^TestFixed$", 1, 1, 500), R("^TestOwnership$", 10, 10, 800, shrinktime="90s")],
+        thorough=[R("^TestFixed$", 1, 1, 500), R("^TestOwnership$", 150, 15, 3400, shrinktime="180s")],
+        floors={"multi-env": ("TestOwnership", 0.25)},
+    ),
 }
